@@ -13,7 +13,7 @@ EXTENDS Fractal, Json, SequencesExt
 Traces == ndJsonDeserialize("traces.ndjson")
 VARIABLES tr, l
 ASSUME TLCSet(1, {}) /\ TLCSet(2, [i \in DOMAIN Traces |-> 0])
-THome == [c \in Leaves |-> IF c \in {"c1", "c2"} THEN "S" ELSE IF c \in {"c3", "c4"} THEN "r1" ELSE "r2"]
+THome == [c \in Leaves |-> IF c \in {"c1", "c2", "l1"} THEN "S" ELSE IF c \in {"c3", "c4", "l2"} THEN "r1" ELSE "r2"]
 
 Seen(e, c, t) == IF c \in DOMAIN e.got /\ t \in DOMAIN e.got[c] THEN e.got[c][t] ELSE 0
 Clean(e) == \A c \in DOMAIN e.got : \A k \in DOMAIN e.got[c] : k \in TaskIds      \* nothing unknown, nothing altered
@@ -23,7 +23,7 @@ RECURSIVE ReportAll(_, _, _, _)
 ReportAll(x, c, t, ps) == IF ps = <<>> THEN x ELSE ReportAll(Report(x, c, t, Head(ps)), c, t, Tail(ps))
 
 Step(e) ==
-  \/ e.a = "Subscribe" /\ e.res = "ok" /\ CanSubscribe(R, e.c) /\ R' = Subscribe(R, e.c) /\ AtMost(e, R')
+  \/ e.a = "Subscribe" /\ e.res = "ok" /\ CanSubscribe(R, e.c) /\ (e.c \in Auto => ~Subscribed(R, e.c)) /\ R' = Subscribe(R, e.c) /\ AtMost(e, R')
   \/ e.a = "Unsubscribe" /\ e.res = "ok" /\ R' = Unsubscribe(R, e.c) /\ AtMost(e, R')
   \/ e.a = "Connect" /\ e.res = "ok" /\ CanConnect(R, e.r) /\ R' = Connect(R, e.r) /\ AtMost(e, R')
   \/ e.a = "Disconnect" /\ e.res = "ok" /\ R' = Disconnect(R, e.r) /\ AtMost(e, R')
